@@ -252,7 +252,7 @@ def parse_body(body, binds):
             raise T.TranslateError("negation arm not understood: %s" % b[:200])
         return "PToggle"
     b = TEXTWS_RE.sub(lambda m: "TEXTWS(%s, %s)" % (m.group(1), m.group(2)), b)
-    if "resource" in b or "gap" in b:
+    if re.search(r"\b(resource|gap)\b", b):
         raise T.TranslateError("use of the resource not understood: %s" % b[:300])
     p = P(tokenize(b), binds)
     e = p.expr()
